@@ -22,7 +22,7 @@ SCRATCH = os.environ.get("BSVERIF_SCRATCH", "/var/tmp/bsverif")
 HARNESS_DIR = os.path.join(VERIF, "harness")
 EVIDENCE_DIR = os.path.join(VERIF, "evidence")
 REPLAY_DIR = os.path.join(VERIF, "replays")
-KNOWN_FILE = os.path.join(VERIF, "known_findings.jsonl")
+KNOWN_FILE = os.path.join(VERIF, "known_findings.txt")
 SCRATCH_REPO = os.path.join(SCRATCH, "repo")
 KANI_TARGET = os.path.join(SCRATCH, "kani-target")
 LOG_DIR = os.path.join(SCRATCH, "logs")
@@ -254,7 +254,9 @@ def build(th, harnesses):
         try:
             with open(stamp) as f:
                 st = json.load(f)
-            if all(os.path.exists(x["goto_file"]) for x in st["harnesses"].values()):
+            # a later build of another tree overwrites the goto binaries under the same names:
+            # the stamp is valid only while every binary is byte-for-byte the one this build wrote
+            if all(_sig(x["goto_file"]) == x.get("sig") for x in st["harnesses"].values()):
                 return True, 0.0, blog, st["harnesses"]
         except (OSError, ValueError, KeyError):
             pass
@@ -271,9 +273,19 @@ def build(th, harnesses):
     meta = find_metadata(set(names))
     if meta is None:
         return False, dt, blog, {}
+    for v in meta.values():
+        v["sig"] = _sig(v["goto_file"])
     with open(stamp, "w") as f:
         json.dump({"tree": th, "harnesses": meta}, f)
     return True, dt, blog, meta
+
+
+def _sig(path):
+    try:
+        st = os.stat(path)
+        return [st.st_size, st.st_mtime_ns]
+    except OSError:
+        return None
 
 
 def find_metadata(names):
@@ -385,7 +397,9 @@ def resolve_unwindset(h, gb, wdir, deadline):
         if not item:
             continue
         pat, n = item.rsplit("=", 1)
-        pats.append((pat.strip(), int(n)))
+        pat = pat.strip()
+        opt = pat.startswith("?")          # "?pattern=n": a bound for a loop this harness may not contain
+        pats.append((pat.lstrip("?").strip(), int(n), opt))
     lj = os.path.join(wdir, "loops.json")
     rc, to, _ = _run([os.path.join(KBIN, "cbmc"), "--show-loops", "--json-ui", gb], lj,
                      deadline - time.time(), h.mem_gb)
@@ -401,17 +415,18 @@ def resolve_unwindset(h, gb, wdir, deadline):
     for lp in loops:
         sl = lp.get("sourceLocation", {})
         key = "%s @ %s:%s" % (sl.get("function", ""), sl.get("file", ""), sl.get("line", ""))
-        for i, (pat, n) in enumerate(pats):
+        for i, (pat, n, _opt) in enumerate(pats):
             if re.search(pat, key):
                 sets.append("%s:%d" % (lp["name"], n))
                 used.add(i)
                 table.append({"loop": key[:160], "bound": n})
                 break
-    problems = ["unwindset pattern matches no loop: " + pats[i][0] for i in range(len(pats)) if i not in used]
+    problems = ["unwindset pattern matches no loop: " + pats[i][0] for i in range(len(pats))
+                if i not in used and not pats[i][2]]
     return sets, problems, table
 
 
-def run_harness(h, meta, trace=False, tag=""):
+def run_harness(h, meta, trace=False, tag="", loops_only=False):
     wdir = os.path.join(WORK, h.name + tag)
     shutil.rmtree(wdir, ignore_errors=True)
     os.makedirs(wdir)
@@ -451,6 +466,18 @@ def run_harness(h, meta, trace=False, tag=""):
         if rc != 0:
             return fail(f"{os.path.basename(st[0])} failed rc={rc}; see {lg}")
     res["prep_s"] = round(time.time() - t0, 1)
+    if loops_only:
+        lj = os.path.join(wdir, "loops.json")
+        _run([os.path.join(KBIN, "cbmc"), "--show-loops", "--json-ui", gb], lj, 600, h.mem_gb)
+        with open(lj) as f:
+            for e in json.load(f):
+                if isinstance(e, dict) and "loops" in e:
+                    for lp in e["loops"]:
+                        sl = lp.get("sourceLocation", {})
+                        print("LOOP %s | %s @ %s:%s" % (lp["name"][-60:], sl.get("function", "")[-110:], sl.get("file", "")[-50:], sl.get("line", "")))
+        res["verdict"] = "INCONCLUSIVE"
+        res["reasons"].append("loops only")
+        return res
     cmd = [os.path.join(KBIN, "cbmc")] + CBMC_FLAGS
     if meta.get("unwind") is not None:
         cmd += ["--unwind", str(meta["unwind"])]
